@@ -2660,6 +2660,15 @@ package otto
 //@   preserves runtime.scope, scope.outer
 //@   fresh_refs
 
+// 15.3.4.5 steps 15-16: the length of a bound function is the target's length less the number
+// of bound arguments, and 0 when that is negative; it is not writable, enumerable or configurable.
+//@ func (*runtime).newBoundFunctionObject
+//@   props C14
+//@   nosafety
+//@   requires rt != nil && target != nil
+//@   calls toInt32(_) as tl
+//@   at_call (*object).defineProperty : arg1 == propertyLength ==> called(tl) && arg3 == 0 && arg2.kind == valueNumber && is(arg2.value, int) && arg2.value.(int) == ite(int(tl) - len(argumentList) < 0, 0, int(tl) - len(argumentList))
+
 // ToPropertyDescriptor (8.10.5): a field of the descriptor object that is present sets the
 // corresponding attribute to ToBoolean of its value and leaves it unset otherwise; a present
 // get / set that is undefined is recorded as "present but undefined" (the sentinel), a
@@ -3752,6 +3761,10 @@ package otto
 //@   nosafety
 //@   requires rt != nil
 //@   nocall (*runtime).panicTypeError(_, _) when true
+// the inline flags handed to the regular-expression engine are exactly the flags seen so far
+// ("m" for multiline, "i" for ignoreCase, in the order met; "g" is not an engine flag)
+//@   invariant@1 len(re2flags) <= 2 && (len(re2flags) == 2 ==> re2flags[0] != re2flags[1]) && (forall j int :: 0 <= j && j < len(re2flags) ==> re2flags[j] == 109 || re2flags[j] == 105) && (multiline <==> (len(re2flags) >= 1 && re2flags[0] == 109) || (len(re2flags) == 2 && re2flags[1] == 109)) && (ignoreCase <==> (len(re2flags) >= 1 && re2flags[0] == 105) || (len(re2flags) == 2 && re2flags[1] == 105))
+//@   at_call parser.TransformRegExp : len(re2flags) <= 2 && (len(re2flags) == 2 ==> re2flags[0] != re2flags[1]) && (forall j int :: 0 <= j && j < len(re2flags) ==> re2flags[j] == 109 || re2flags[j] == 105) && (multiline <==> (len(re2flags) >= 1 && re2flags[0] == 109) || (len(re2flags) == 2 && re2flags[1] == 109)) && (ignoreCase <==> (len(re2flags) >= 1 && re2flags[0] == 105) || (len(re2flags) == 2 && re2flags[1] == 105))
 //@   at_call parser.TransformRegExp : arg0 == pattern
 //@   at_call (*object).defineProperty : arg0 == o && !arg4 && (arg1 == "global" || arg1 == "ignoreCase" || arg1 == "multiline" || arg1 == "lastIndex" || arg1 == "source")
 //@   at_call (*object).defineProperty : arg1 == "lastIndex" ==> arg3 == 0o100 && arg2.kind == valueNumber && is(arg2.value, int) && arg2.value.(int) == 0
